@@ -55,7 +55,7 @@ func (g *Valid) rowCount(bound map[Ty][]string) *E {
 
 // Pipe makes a valid tabular expression.
 func (g *Valid) Pipe(nops, depth, joinDepth int, bound map[Ty][]string) *Pipe {
-	tables := []string{"T", "U", "Events", "t2"}
+	tables := []string{"T", "U", "Events", "t2", "set", "distinct"}
 	p := &Pipe{Table: Ident{Name: tables[g.Rng.Intn(len(tables))]}}
 	if g.Rng.Intn(8) == 0 {
 		// quoted table names: with a blank, spelled like keywords and operators, like the compiler's own names
